@@ -13,6 +13,6 @@ rep = report.Report(pid, 'quick', repo)
 importlib.import_module('sa.props.' + pid).run(fb, rep, 'quick')
 for o in rep.obs:
     if clause is None or o['clause'] == clause:
-        print('%-9s %-6s %-28s %s  [%s] %s' % (o['verdict'], o['clause'], o['rule'], o['instance'][:150], o['site'], o['detail'][:120]))
+        print('%-9s %-6s %-28s %s  [%s] %s' % (o['verdict'], o['clause'], o['rule'], o['instance'][:150], o['site'], o['detail'][:int(__import__('os').environ.get('OBS_W', '120'))]))
 for b in rep.brokens:
     print('BROKEN', b)
